@@ -21,6 +21,11 @@ from traits.has_traits import HasTraits
 from traits.trait_types import Dict, List, Str
 
 
+#: Private sentinel: the 'default' that 'supports_protocol' hands to 'adapt'.
+#: (None cannot be used: None is itself a possible adaptee.)
+_MISSING = object()
+
+
 def no_adapter_necessary(adaptee):
     """ An adapter factory used to register that a protocol provides another.
 
@@ -125,12 +130,13 @@ class AdaptationManager(HasTraits):
 
         # If the object already provides the given protocol then it is
         # simply returned.
+        # (Returned right here: the "no adapter" test below is about the
+        # result of the search, and the adaptee may be None itself.)
         if self.provides_protocol(type(adaptee), to_protocol):
-            result = adaptee
+            return adaptee
 
         # Otherwise, try adapting the object.
-        else:
-            result = self._adapt(adaptee, to_protocol)
+        result = self._adapt(adaptee, to_protocol)
 
         if result is None:
             if default is AdaptationError:
@@ -183,7 +189,7 @@ class AdaptationManager(HasTraits):
 
         """
 
-        return self.adapt(obj, protocol, None) is not None
+        return self.adapt(obj, protocol, _MISSING) is not _MISSING
 
     #### Private protocol #####################################################
 
